@@ -193,6 +193,60 @@ def vm_sample(indir, max_cases=12, max_numbers=2500):
     return {"cases": len(chosen), "mismatches": mism}
 
 
+def still_fails(pid, case, workdir):
+    """Run one case on the implementation and on the model; True when they (still) disagree."""
+    os.makedirs(workdir, exist_ok=True)
+    rp = os.path.join(workdir, "cand.json")
+    json.dump({"case": case}, open(rp, "w"))
+    race = bool(PROPS[pid].get("race"))
+    rc, out = sh([os.path.join(BUILD, "hx_race" if race else "hx"), "-prop", pid, "-nospecial", "-out", workdir, "-replay", rp], env=GOENV, timeout=300)
+    if rc != 0:
+        return False
+    try:
+        run_model(workdir)
+        exp = open(os.path.join(workdir, "cases.exp")).read()
+        mod = open(os.path.join(workdir, "cases.model")).read()
+        st = json.load(open(os.path.join(workdir, "stats.json")))
+    except SystemExit:
+        return False
+    return exp != mod or bool(st.get("go_failures"))
+
+
+def shrink_case(pid, case, first_op):
+    """Delta debugging on the op list: cut everything after the first differing op, then drop every
+    observation op before it that is not needed (ops that create slots are kept)."""
+    workdir = os.path.join(BUILD, "run", pid, "shrink")
+    best = json.loads(json.dumps(case))
+    best.pop("equal", None)
+    creates = (1, 2, 3)
+    if first_op is not None and first_op + 1 < len(best["ops"]):
+        cand = dict(best, ops=best["ops"][:first_op + 1])
+        if still_fails(pid, cand, workdir):
+            best = cand
+    i = len(best["ops"]) - 2
+    steps = 0
+    while i >= 0 and steps < 60:
+        if best["ops"][i]["op"] not in creates:
+            cand = dict(best, ops=best["ops"][:i] + best["ops"][i + 1:])
+            steps += 1
+            if still_fails(pid, cand, workdir):
+                best = cand
+        i -= 1
+    # shorten iterator op sequences and visit lists of the last op
+    last = best["ops"][-1]
+    for key in ("iter_ops", "visits", "terms"):
+        while last.get(key) and len(last[key]) > 1 and steps < 120:
+            cand_last = dict(last, **{key: last[key][:-1]})
+            cand = dict(best, ops=best["ops"][:-1] + [cand_last])
+            steps += 1
+            if still_fails(pid, cand, workdir):
+                best, last = cand, cand_last
+            else:
+                break
+    shutil.rmtree(workdir, ignore_errors=True)
+    return best
+
+
 def write_replay(pid, seed, n, payload):
     rdir = os.path.join(ROOT, "replays")
     os.makedirs(rdir, exist_ok=True)
@@ -364,6 +418,14 @@ def run_check(pid, tier, seed):
     if real:
         with_input = [v for v in real if v.get("failing_input")]
         chosen = with_input[0] if with_input else real[0]
+        if chosen.get("kind") == "transcript-mismatch" and chosen.get("case"):
+            try:
+                small = shrink_case(pid, chosen["case"], chosen.get("first_differing_op"))
+                chosen["original_case_ops"] = len(chosen["case"]["ops"])
+                chosen["case"] = small
+                chosen["shrunk_case_ops"] = len(small["ops"])
+            except Exception as e:  # shrinking is best effort
+                chosen["shrink_error"] = str(e)
         path = write_replay(pid, seed, 0, {"violation": chosen, "all_violations": real[:10], "case": chosen.get("case")})
         tail = "" if chosen.get("failing_input") else " no-failing-input-found"
         print("VIOLATION property=%s replay=%s%s" % (pid, path, tail))
